@@ -9,3 +9,4 @@ import PyIkev2.Props.C16
 #print axioms PyIkev2.Props.C16.c16_init_without_configuration
 #print axioms PyIkev2.Props.C16.c16_expire_unknown
 #print axioms PyIkev2.Props.C16.c16_status_is_table
+#print axioms PyIkev2.Props.C16.c16_whole_model_never_lists_an_ike_sa_twice
